@@ -186,19 +186,25 @@ func (t *Target) denyByIP(ip net.IP) bool {
 
 // ProcessAccessRules processes access rules from options specified on the target route
 func (t *Target) ProcessAccessRules() error {
-	if t.Opts["allow"] != "" && t.Opts["deny"] != "" {
+	// An allow option without a value ("allow=", "allow" or "allow= ip:..."
+	// which the option parser splits at the blank) is still an allow list:
+	// one without blocks, which admits nobody. It must not leave the target
+	// unrestricted. A deny option without a value denies nothing.
+	_, hasAllow := t.Opts["allow"]
+	hasDeny := t.Opts["deny"] != ""
+
+	if hasAllow && hasDeny {
 		// fail closed: an unsupported combination must not leave the target
 		// unrestricted. An empty allow list admits nobody.
 		t.accessRules = map[string][]interface{}{ipAllowTag: {}}
 		return errors.New("specifying allow and deny on the same route is not supported")
 	}
 
-	for _, allowDeny := range []string{"allow", "deny"} {
-		if t.Opts[allowDeny] != "" {
-			if err := t.parseAccessRule(allowDeny); err != nil {
-				return err
-			}
-		}
+	if hasAllow {
+		return t.parseAccessRule("allow")
+	}
+	if hasDeny {
+		return t.parseAccessRule("deny")
 	}
 	return nil
 }
